@@ -52,11 +52,13 @@ ASSUME \A r \in Rows : \A d2 \in DialForms : Sni(r.s, r.h, r.p, r.d) = Sni(r.s, 
 
 -----------------------------------------------------------------------------
 (* certificate decisions *)
-CertKinds == {"valid", "wrongname", "otherca", "expired", "selfsigned"}
+CertKinds == {"valid", "wrongname", "otherca", "expired", "selfsigned", "sysca"}
 \* upstream side: accepted iff verification is disabled, or the chain ends in the configured CA, the name
-\* matches the server name and the certificate is inside its validity period
-TlsAccept(cert, caSet, skip) == skip \/ (caSet /\ cert = "valid")
-ClientCerts == {"none", "fromca", "otherca"}
+\* matches the server name and the certificate is inside its validity period. "sysca" is a correctly named,
+\* valid certificate issued under a root of the platform's trust store: with a CA configured it is NOT accepted
+\* (the configured CA replaces the platform's roots), without one it is
+TlsAccept(cert, caSet, skip) == skip \/ (caSet /\ cert = "valid") \/ (~caSet /\ cert = "sysca")
+ClientCerts == {"none", "fromca", "otherca", "sysca"}
 \* listener side: with verify_client_cert a query is served only to a client presenting a certificate from the CA
 Serve(clientCert, verify) == ~verify \/ clientCert = "fromca"
 =============================================================================
